@@ -80,7 +80,7 @@ def build_package():
             cases.append((rn, [("o", t1), ("d", t2)], [("swa", "switch(o: x | null: d)", ("sw", t1, t2)), ("swb", "switch(null: d | o: x)", ("sw", t1, t2))]))
     build_package.swcases = swcases
     # group 3: access / functions / conversions / switch
-    defs.append(Record("Inner", [("q", P("int32")), ("w", Vec(P("float64")))], computed=[("twice", "q * 2")]))
+    defs.append(Record("Inner", [("q", P("int32")), ("w", Vec(P("float64"))), ("h", P("float64"))], computed=[("twice", "q * 2")]))
     misc = Record("Misc", [("i", P("int32")), ("f", P("float32")), ("v", Vec(P("int32"))), ("w", Vec(P("int64"), 3)), ("m", Map(P("string"), P("int32"))),
                            ("fa", Arr(P("int32"), (("x", 2), ("y", 3)))), ("nd", Arr(P("float32"), 2)), ("na", Arr(P("float64"), (("r", None), ("c", None)))),
                            ("dy", Arr(P("int16"), None)), ("o", Opt(P("int32"))), ("u", Union(P("int32"), P("string"))), ("n", Union(None, P("int32"), P("float32"))),
@@ -95,7 +95,10 @@ def build_package():
                             ("swo", ["!switch o:", "  int x: x + 1", "  _: -1"]),
                             ("swu", ["!switch u:", "  int x: x", "  string t: 0"]),
                             ("swn", ["!switch n:", "  int32 x: x", "  float32 y: y", "  _: 0"]),
-                            ("swtype", ["!switch u:", "  int: 1", "  _: 2"])])
+                            ("swtype", ["!switch u:", "  int: 1", "  _: 2"]),
+                            # a case variable that has the name of a member of another record: `inner.h` stays the member (float64)
+                            ("swshadow", ["!switch o:", "  int h: inner.h / h", "  _: 0.5"]),
+                            ("swshadowq", ["!switch u:", "  string q: inner.q + 1", "  int q: inner.q * q"])])
     defs.append(misc)
     pkg = Package("Cfa", defs=defs, protocols=[Protocol("P", [("x", N("Misc"))])], dirname="cfa")
     return pkg, cases
@@ -208,12 +211,12 @@ def cpp_main(pkg, cases, ns, grid):
     out.append("    int32_t* fp = yardl::dataptr(r.fa); for (int k = 0; k < 6; k++) fp[k] = k + 1;")
     out.append("    yardl::resize(r.nd, {2, 2}); float* np_ = yardl::dataptr(r.nd); for (int k = 0; k < 4; k++) np_[k] = k + 0.5f;")
     out.append("    yardl::resize(r.na, {2, 3}); double* ap = yardl::dataptr(r.na); for (int k = 0; k < 6; k++) ap[k] = k * 1.5;")
-    out.append("    yardl::resize(r.dy, {2, 1, 2}); r.o = 9; r.u = std::string(\"zz\"); r.n = 1.5f; r.inner.q = 21; r.inner.w = {0.5, 1.5};")
+    out.append("    yardl::resize(r.dy, {2, 1, 2}); r.o = 9; r.u = std::string(\"zz\"); r.n = 1.5f; r.inner.q = 21; r.inner.w = {0.5, 1.5}; r.inner.h = 7.5;")
     pkgmisc = [d for d in pkg.defs if d.name == "Misc"][0]
     for n, e in pkgmisc.computed:
         out.append('    try { pr("Misc", 0, "%s", r.%s()); } catch (std::exception const& e) { printf("Misc 0 %s x\\n"); }' % (n, n[0].upper() + n[1:], n))
     out.append("    r.o = std::nullopt; r.u = 4; r.n = std::monostate{};")
-    for n in ("swo", "swu", "swn", "swtype"):
+    for n in ("swo", "swu", "swn", "swtype", "swshadow", "swshadowq"):
         out.append('    pr("Misc", 1, "%s", r.%s());' % (n, n[0].upper() + n[1:]))
     out.append("  }")
     out.append("  return 0; }")
@@ -238,12 +241,12 @@ def py_main(pkg, cases, grid, pydir):
     out.append("r = cfa.Misc(i=5, f=2.5, v=[10, 20, 30], w=[1, 2, 3], m={'k': 42}, s='abc', fa=np.arange(1, 7, dtype=np.int32).reshape(2, 3),"
                " nd=(np.arange(4, dtype=np.float32) + 0.5).reshape(2, 2), na=(np.arange(6, dtype=np.float64) * 1.5).reshape(2, 3),"
                " dy=np.zeros((2, 1, 2), dtype=np.int16), o=9, u=cfa.Int32OrString.String('zz'), n=cfa.Int32OrFloat32.Float32(1.5),"
-               " inner=cfa.Inner(q=21, w=[0.5, 1.5]))")
+               " inner=cfa.Inner(q=21, w=[0.5, 1.5], h=7.5))")
     pkgmisc = [d for d in pkg.defs if d.name == "Misc"][0]
     for n, e in pkgmisc.computed:
         out.append("pr('Misc', 0, %r, r.%s)" % (n, snake(n)))
     out.append("r.o = None; r.u = cfa.Int32OrString.Int32(4); r.n = None")
-    for n in ("swo", "swu", "swn", "swtype"):
+    for n in ("swo", "swu", "swn", "swtype", "swshadow", "swshadowq"):
         out.append("pr('Misc', 1, %r, r.%s)" % (n, snake(n)))
     return "\n".join(out)
 
@@ -314,8 +317,8 @@ def int_div_explains(m, vals, cval, pval):
 
 MISC_EXPECT = {"acc": 5, "nested": 21, "nestedcf": 42, "nestedvec": 1.5, "vidx": 20, "widx": 3, "midx": 42, "fidx": 6, "fnamed": 4, "ndidx": 2.5, "nanamed": 1.5,
                "szv": 3, "szw": 3, "szm": 1, "szfa": 6, "szfazero": 2, "szfay": 3, "sznd": 4, "szndone": 2, "sznac": 3, "szdy": 4, "dcdy": 3, "dcfa": 2, "dify": 1,
-               "dinac": 1, "convd": 5.0, "convi": 2, "convu": 5, "convsum": 7, "arith": 23, "cfofcf": 8, "swo": 10, "swu": 0, "swn": 1.5, "swtype": 2}
-MISC_EXPECT1 = {"swo": -1, "swu": 4, "swn": 0, "swtype": 1}
+               "dinac": 1, "convd": 5.0, "convi": 2, "convu": 5, "convsum": 7, "arith": 23, "cfofcf": 8, "swo": 10, "swu": 0, "swn": 1.5, "swtype": 2, "swshadow": 7.5 / 9, "swshadowq": 22}
+MISC_EXPECT1 = {"swo": -1, "swu": 4, "swn": 0, "swtype": 1, "swshadow": 0.5, "swshadowq": 84}
 
 
 def main(tier):
@@ -482,7 +485,7 @@ def main(tier):
             except Exception:  # noqa
                 ref0 = None
             rt0 = canon(types[rn][n])
-            if ref0 is not None and not isinstance(ref0, complex) and is_int(rt0) and not representable(Fraction(ref0), rt0):
+            if ref0 is not None and not isinstance(ref0, complex) and is_int(rt0) and Fraction(ref0).denominator == 1 and not representable(Fraction(ref0), rt0):
                 chk.fail("value/cpp-vs-python/result-outside-static-type", "%s with %s = %s (static type %s): the exact value %s does not fit; C++ gives %s, Python gives %s" % (
                     e, [fn for fn, _ in fields], [repr(v) for v in vals], rt0, ref0, c[1], p[1]), where)
                 continue
